@@ -608,3 +608,255 @@ def lean_trace(run: ERun, psers, tabs, complete=True):
     if complete:
         evs.append("(t)")
     return "(" + " ".join(evs) + ")"
+
+
+# --------------------------------------------------------------------------- model partition (Lean) vs real
+
+def parse_sexp(text):
+    """'(a (1 2) b)' -> nested lists; integers become int"""
+    toks = text.replace("(", " ( ").replace(")", " ) ").split()
+    pos = 0
+
+    def rd():
+        nonlocal pos
+        t = toks[pos]
+        pos += 1
+        if t == "(":
+            out = []
+            while toks[pos] != ")":
+                out.append(rd())
+            pos += 1
+            return out
+        try:
+            return int(t)
+        except ValueError:
+            return t
+    return rd()
+
+
+def send_data_ids(spec):
+    """((rank dst tag data)…): canonical id of the array every live send sends (first node of
+    the rank with the same structural key)"""
+    sends, _ = G.comm_ops(spec)
+    items = []
+    for s in sends:
+        rk = spec["ranks"][s["rank"]]
+        memo: dict = {}
+        key = G.node_key(rk, rk["nodes"][s["node"]]["data"], memo)
+        first = next(i for i in range(len(rk["nodes"])) if G.node_key(rk, i, memo) == key)
+        items.append((s["rank"], s["dst"], s["tag"], first))
+    return items
+
+
+def skeleton_query(spec):
+    datas = " ".join(f"({a} {b} {c} {d})" for a, b, c, d in send_data_ids(spec))
+    return f"(dist skeleton {spec['nranks']} {lean_graph(spec)} ({datas}))"
+
+
+def real_skeleton(psers):
+    """per rank [(pid, needs, sorted recv ids, sorted groups of send ids)] from the real partition"""
+    out = []
+    for ps in psers:
+        r = ps["rank"]
+        parts = []
+        for p in sorted(ps["parts"], key=lambda p: p["pid"]):
+            groups: dict = {}
+            for s in p["sends"]:
+                groups.setdefault(s[0], []).append((r, s[1], s[2]))
+            parts.append((p["pid"], sorted(p["needs"]), sorted((rv[1], r, rv[2]) for rv in p["recvs"]),
+                          sorted(sorted(g) for g in groups.values())))
+        out.append(parts)
+    return out
+
+
+def model_skeleton(answer):
+    """parse the driver's answer into the same shape"""
+    tree = parse_sexp(answer[3:])
+    out = []
+    for parts in tree:
+        ps = []
+        for pid, needs, recvs, groups in parts:
+            ps.append((pid, sorted(needs), sorted(tuple(c) for c in recvs),
+                       sorted(sorted(tuple(c) for c in g[1]) for g in groups)))
+        out.append(ps)
+    return out
+
+
+def skeleton_difference(real, model):
+    """None or a short stable description of the first structural difference"""
+    for r, (a, b) in enumerate(zip(real, model)):
+        if len(a) != len(b):
+            return f"number-of-parts:rank{r}:{len(a)}!={len(b)}", "number-of-parts"
+        for pa, pb in zip(a, b):
+            for k, nm in ((0, "pid"), (1, "needed-pids"), (2, "receives-of-part"), (3, "send-groups-of-part")):
+                if pa[k] != pb[k]:
+                    return f"{nm}:rank{r}:part{pa[0]}:real={pa[k]}:model={pb[k]}", nm
+    return None
+
+
+NAME_BASE = 1000
+
+
+def _canon_ids(rk):
+    """node index -> canonical index (first node with the same structural key; aliases resolve)"""
+    memo: dict = {}
+    first: dict = {}
+    out = {}
+    for i in range(len(rk["nodes"])):
+        k = G.node_key(rk, i, memo)
+        first.setdefault(k, i)
+        out[i] = first[k]
+    return out
+
+
+def user_name_table(spec):
+    names = set()
+    for rk in spec["ranks"]:
+        names |= {nd["name"] for nd in rk["nodes"] if nd["op"] == "input"}
+        names |= {nm for nm, _ in rk["outputs"]}
+    return {nm: i for i, nm in enumerate(sorted(names))}
+
+
+def lean_program(spec):
+    """the normalised program (live nodes, aliases resolved, equal nodes merged) in the PROG
+    wire format of ptdriver, plus the user-name table"""
+    tab = user_name_table(spec)
+    ranks = []
+    for rk in spec["ranks"]:
+        can = _canon_ids(rk)
+        live = sorted({can[i] for i in G.live_nodes(rk)})
+        nodes = []
+        for i in live:
+            nd = rk["nodes"][i]
+            op = nd["op"]
+            st = 1 if nd.get("stored") else 0
+            if op == "input":
+                nodes.append(f"({i} in {tab[nd['name']]} {st})")
+            elif op == "data":
+                nodes.append(f"({i} data {st})")
+            elif op == "recv":
+                nodes.append(f"({i} recv {nd['src']} {nd['tag']} {st})")
+            elif op == "send":
+                nodes.append(f"({i} send {can[nd['data']]} {nd['dst']} {nd['tag']} {can[nd['pass']]})")
+            elif op in ("add", "sub", "mul"):
+                nodes.append(f"({i} op {st} {can[nd['a']]} {can[nd['b']]})")
+            elif op in ("addc", "mulc"):
+                nodes.append(f"({i} op {st} {can[nd['a']]})")
+            else:
+                raise ValueError(op)
+        outs = " ".join(f"({tab[nm]} {can[o]})" for nm, o in rk["outputs"])
+        ranks.append(f"(({' '.join(nodes)}) ({outs}))")
+    return "(" + " ".join(ranks) + ")", tab
+
+
+def real_partition_canonical(pr: PRun, spec, tab):
+    """every rank's real partition with names canonicalised the way the model names them:
+    user names -> table ids, generated names -> NAME_BASE + node id.  Returns (ranks, problems)"""
+    import hashlib
+    from pytato.array import DataWrapper, Placeholder
+    problems = []
+    out = []
+    for r, rp in enumerate(pr.ranks):
+        part = rp.part
+        rk = spec["ranks"][r]
+        can = _canon_ids(rk)
+        name_map: dict = {}
+        recv_node = {(nd["src"], nd["tag"]): can[i] for i, nd in enumerate(rk["nodes"]) if nd["op"] == "recv"}
+        send_data = {(nd["dst"], nd["tag"]): can[nd["data"]] for i, nd in enumerate(rk["nodes"]) if nd["op"] == "send"
+                     and i in set(G.live_nodes(rk))}
+        input_node = {nd["name"]: can[i] for i, nd in enumerate(rk["nodes"]) if nd["op"] == "input"}
+        data_node = {hashlib.sha256(np.array(nd["values"], dtype=np.int64).tobytes()).hexdigest(): can[i]
+                     for i, nd in enumerate(rk["nodes"]) if nd["op"] == "data"}
+        overall = set(part.overall_output_names)
+        for p in part.parts.values():
+            for nm, rv in p.name_to_recv_node.items():
+                k = (rv.src_rank, tag_index(spec, rv.comm_tag))
+                if k in recv_node:
+                    name_map[nm] = NAME_BASE + recv_node[k]
+            for nm, sds in p.name_to_send_nodes.items():
+                for sd in sds:
+                    k = (sd.dest_rank, tag_index(spec, sd.comm_tag))
+                    if k in send_data:
+                        a = send_data[k]
+                        while rk["nodes"][a]["op"] == "send":
+                            a = can[rk["nodes"][a]["pass"]]
+                        name_map.setdefault(nm, NAME_BASE + a)
+        for nm, expr in part.name_to_output.items():
+            if nm in name_map or nm in overall:
+                continue
+            if isinstance(expr, Placeholder) and expr.name in input_node:
+                name_map[nm] = NAME_BASE + input_node[expr.name]
+            elif isinstance(expr, Placeholder) and expr.name in name_map:
+                name_map[nm] = name_map[expr.name]      # a holder whose pass-through is a receive
+            elif isinstance(expr, DataWrapper):
+                dg = hashlib.sha256(np.ascontiguousarray(expr.data).tobytes()).hexdigest()
+                if dg in data_node:
+                    name_map[nm] = NAME_BASE + data_node[dg]
+            else:
+                ids = [t.k for t in expr.tags if type(t).__name__ == "CommNodeId"]
+                if len(ids) == 1:
+                    name_map[nm] = NAME_BASE + can[ids[0]]
+        user_names = {nd["name"] for nd in rk["nodes"] if nd["op"] == "input"}
+
+        def cn(nm, where):
+            if nm in name_map:
+                return name_map[nm]
+            if nm in tab and (nm in overall or nm in user_names):
+                return tab[nm]
+            problems.append(f"rank{r}:{where}:unidentified-name:{nm}")
+            return -1
+        parts = []
+        for pid in sorted(part.parts):
+            p = part.parts[pid]
+            parts.append({
+                "pid": pid, "needs": sorted(p.needed_pids),
+                "inputs": sorted(cn(n, "input") for n in p.user_input_names | p.partition_input_names),
+                "outputs": sorted(cn(n, "output") for n in p.output_names),
+                "recvs": sorted((cn(nm, "recv"), rv.src_rank, tag_index(spec, rv.comm_tag))
+                                for nm, rv in p.name_to_recv_node.items()),
+                "sends": sorted((cn(nm, "send"), sd.dest_rank, tag_index(spec, sd.comm_tag))
+                                for nm, sds in p.name_to_send_nodes.items() for sd in sds)})
+        out.append({"parts": parts, "overall": [tab[n] for n in part.overall_output_names]})
+    return out, problems
+
+
+def model_partition(answer, spec):
+    """driver answer of `(dist partition …)` -> same shape as real_partition_canonical.  A
+    generated name of a send holder is identified with the name of its pass-through value (the
+    expression stored under the holder's name IS the pass-through's): multisets are compared."""
+    tree = parse_sexp(answer[3:])
+    out = []
+    for r, (parts, user, overall) in enumerate(tree):
+        rk = spec["ranks"][r]
+        can = _canon_ids(rk)
+
+        def strip(nm):
+            if nm < NAME_BASE:
+                return nm
+            a = nm - NAME_BASE
+            while rk["nodes"][a]["op"] == "send":
+                a = can[rk["nodes"][a]["pass"]]
+            return NAME_BASE + a
+        ps = []
+        for pid, needs, ins, outs, recvs, sends, _pure in parts:
+            ps.append({"pid": pid, "needs": sorted(needs), "inputs": sorted(strip(x) for x in ins),
+                       "outputs": sorted(strip(x) for x in outs),
+                       "recvs": sorted((strip(x[0]), x[1], x[2]) for x in recvs),
+                       "sends": sorted((strip(x[0]), x[1], x[2]) for x in sends)})
+        out.append({"parts": ps, "overall": list(overall)})
+    return out
+
+
+def partition_difference(real, model):
+    for r, (a, b) in enumerate(zip(real, model)):
+        if len(a["parts"]) != len(b["parts"]):
+            return f"number-of-parts:rank{r}:{len(a['parts'])}!={len(b['parts'])}", "number-of-parts"
+        if a["overall"] != b["overall"]:
+            return f"overall-output-names:rank{r}", "overall-output-names"
+        for pa, pb in zip(a["parts"], b["parts"]):
+            for k in ("pid", "needs", "recvs", "sends", "outputs", "inputs"):
+                va = [list(x) if isinstance(x, tuple) else x for x in pa[k]] if isinstance(pa[k], list) else pa[k]
+                vb = [list(x) if isinstance(x, tuple) else x for x in pb[k]] if isinstance(pb[k], list) else pb[k]
+                if va != vb:
+                    return f"{k}:rank{r}:part{pa['pid']}:real={va}:model={vb}", f"part-{k}"
+    return None
